@@ -506,7 +506,8 @@ def _sh_child(sc, prefix, stop_at, q):
             resume = MD.XL_ESMD.run_from_checkpoint
         else:
             mol = Molecule(Constants(), sp, coords, species)
-            dyn = ND.SurfaceHoppingDynamics(seqm_parameters=sp, timestep=sc.get("dt", 0.5), Temp=sc.get("temp", 300.0), output=out, initial_state=1)
+            dyn = ND.SurfaceHoppingDynamics(seqm_parameters=sp, timestep=sc.get("dt", 0.5), Temp=sc.get("temp", 300.0), output=out, initial_state=sc.get("initial_state", 1),
+                                            **({"damp": float(sc["damp"])} if sc.get("damp") else {}))
         if stop_at is not None:
             orig = dyn.save_checkpoint
 
